@@ -154,6 +154,38 @@ func runC15(p *P, r *R) {
 		}
 		r.count("R15.3", "returns of pooled streams", nRet, 1)
 	}
+	// R15.5 a stream opened by the pool remembers its pool (PutBack finds its way home), and PutBack uses it
+	if get != nil {
+		okPool := false
+		for _, ret := range returnsOf(get) {
+			v := resultOf(ret, 0)
+			if e, ok := v.(*ssa.Extract); ok {
+				if c, ok := e.Tuple.(*ssa.Call); ok && p.calleeName(&c.Call) == "(*Session).OpenStream" {
+					for _, si := range findInstrs(get, mStoreWord("Stream.pool")) {
+						if instrDominates(si, ret) && si.(*ssa.Store).Addr.(*ssa.FieldAddr).X == v {
+							if _, isParam := si.(*ssa.Store).Val.(*ssa.Parameter); isParam {
+								okPool = true
+							}
+						}
+					}
+				}
+			}
+		}
+		r.ob("R15.5", "getOrOpenStream: a freshly opened stream records the pool it belongs to", p.pos(get.Pos()), okPool, true,
+			"PutBack looks the pool up in the stream: a stream without it is silently dropped (never pooled, never closed)")
+	}
+	if pb := p.fn("(*SessionManager).PutBack"); pb != nil {
+		ok := false
+		for _, ci := range findInstrs(pb, p.mCall("(*streamPool).putOrCloseStream")) {
+			c := ci.(*ssa.Call)
+			if isLoadOf(c.Call.Args[0], "Stream.pool") {
+				if _, isParam := c.Call.Args[1].(*ssa.Parameter); isParam {
+					ok = true
+				}
+			}
+		}
+		r.ob("R15.5", "PutBack hands the stream to its own pool", p.pos(pb.Pos()), ok, true, "")
+	}
 	if rs := p.fn("(*Stream).reset"); rs != nil {
 		for _, ret := range returnsOf(rs) {
 			if !isNilConst(lastResult(ret)) {
